@@ -1,12 +1,111 @@
 import HcipyVerif.Model.Proto
+import HcipyVerif.Model.Binning
+import HcipyVerif.Model.Interp
 
-/-! Line-protocol front end of the C18 model (stub: not built yet). -/
+/-! Line-protocol front end of the C18 model (interpolation and binning).
+
+```
+lin-sep new|old ext|fill <sep> <vals> <pts>     sep = [x-axis];[y-axis];…  pts = [x,y];[x,y];…
+near-sep new|old <sep> <vals> <pts>             -> ok [v,nan,…]   (nan = fill value / outside)
+lin-tri <[ax,ay,bx,by,cx,cy]> <[va,vb,vc]> <[px,py]>   -> ok v | ok nan (degenerate simplex)
+near-uns <pts> <vals> <evalpts>                 -> ok [values of all minimisers];[…]
+bin sum|mean <s> <dims> <vals>                  -> ok [..] | err value
+binw <s> <dims> <vals> <weights>                weighted mean (non-regular grids)
+bint <s> <dims> <ncomp> <vals>                  tensor field, statistic sum
+ss mean|sum <c0> <c> <q> <sep> <ns>             evaluate_supersampled of c0+Σc·x+Σq·x²
+```
+-/
 namespace HcipyVerif.Driver.C18
+open HcipyVerif.Proto HcipyVerif.Binning HcipyVerif.Interp
 
 structure St where
   dummy : Unit := ()
 
+def showOpt : Option Rat → String
+  | some v => showRat v
+  | none => "nan"
+
+def showOpts (l : List (Option Rat)) : String := "[" ++ ",".intercalate (l.map showOpt) ++ "]"
+
+def pair? : List Rat → Option (Rat × Rat)
+  | [a, b] => some (a, b)
+  | _ => none
+
 def step (st : St) : List String → St × String
+  | ["reset"] => ({}, "ok")
+  | ["lin-sep", which, mode, sep, vals, pts] =>
+    match parseRatLists? sep, parseRatList? vals, parseRatLists? pts with
+    | some sep, some vals, some pts =>
+      let ext? := if mode == "ext" then some true else if mode == "fill" then some false else none
+      match ext?, which with
+      | some ext, "new" =>
+        if !shapeOk sep vals then (st, "err value") else
+        (st, "ok " ++ showOpts (pts.map (linearSeparated ext sep vals)))
+      | some ext, "old" =>
+        if !shapeOk sep vals || !sameLengths sep then (st, "err value") else
+        (st, "ok " ++ showOpts (pts.map (linearSeparatedOld ext sep vals)))
+      | _, _ => (st, "bad-op")
+    | _, _, _ => (st, "bad-op")
+  | ["near-sep", which, sep, vals, pts] =>
+    match parseRatLists? sep, parseRatList? vals, parseRatLists? pts with
+    | some sep, some vals, some pts =>
+      match which with
+      | "new" =>
+        if !shapeOk sep vals then (st, "err value") else
+        (st, "ok " ++ showOpts (pts.map (nearestSeparated sep vals)))
+      | "old" =>
+        if !shapeOk sep vals || !sameLengths sep then (st, "err value") else
+        (st, "ok " ++ showOpts (pts.map (nearestSeparatedOld sep vals)))
+      | _ => (st, "bad-op")
+    | _, _, _ => (st, "bad-op")
+  | ["lin-tri", tri, vals, p] =>
+    match parseRatList? tri, parseRatList? vals, parseRatList? p with
+    | some [ax, ay, bx, b_y, cx, cy], some [va, vb, vc], some [px, py] =>
+      (st, "ok " ++ showOpt (linearTriangle (ax, ay) (bx, b_y) (cx, cy) va vb vc (px, py)))
+    | _, _, _ => (st, "bad-op")
+  | ["near-uns", pts, vals, ev] =>
+    match parseRatLists? pts, parseRatList? vals, parseRatLists? ev with
+    | some pts, some vals, some ev =>
+      if pts.length ≠ vals.length || pts.isEmpty then (st, "err value") else
+      (st, "ok " ++ showRatLists (ev.map fun p => (minimisers pts p).map fun i => vals.getD i 0))
+    | _, _, _ => (st, "bad-op")
+  | ["bin", stat, s, dims, vals] =>
+    match parseNat? s, parseNatList? dims, parseRatList? vals with
+    | some s, some dims, some vals =>
+      if s = 0 then (st, "bad-op") else
+      if vals.length ≠ fineSize s dims then (st, "err value") else
+      match stat with
+      | "sum" => (st, "ok " ++ showRatList (binND s dims vals))
+      | "mean" => (st, "ok " ++ showRatList (binMean s dims vals))
+      | _ => (st, "bad-op")
+    | _, _, _ => (st, "bad-op")
+  | ["binw", s, dims, vals, w] =>
+    match parseNat? s, parseNatList? dims, parseRatList? vals, parseRatList? w with
+    | some s, some dims, some vals, some w =>
+      if s = 0 then (st, "bad-op") else
+      if vals.length ≠ fineSize s dims || w.length ≠ vals.length then (st, "err value") else
+      (st, "ok " ++ showRatList (binWMean s dims vals w))
+    | _, _, _, _ => (st, "bad-op")
+  | ["bint", s, dims, ncomp, vals] =>
+    match parseNat? s, parseNatList? dims, parseNat? ncomp, parseRatList? vals with
+    | some s, some dims, some ncomp, some vals =>
+      if s = 0 then (st, "bad-op") else
+      match binTensor? s dims ncomp vals with
+      | some r => (st, "ok " ++ showRatList r)
+      | none => (st, "err value")
+    | _, _, _, _ => (st, "bad-op")
+  | ["ss", stat, c0, c, q, sep, ns] =>
+    match parseRat? c0, parseRatList? c, parseRatList? q, parseRatLists? sep, parseNatList? ns with
+    | some c0, some c, some q, some sep, some ns =>
+      if ns.any (· = 0) || ns.length ≠ sep.length || c.length ≠ sep.length || q.length ≠ sep.length
+         || sep.any (·.length < 2) then (st, "bad-op") else
+      let r := evalSupersampled (poly c0 c q) sep ns
+      let cnt : Nat := ns.foldr (· * ·) 1
+      match stat with
+      | "mean" => (st, "ok " ++ showRatList r)
+      | "sum" => (st, "ok " ++ showRatList (r.map (· * (cnt : Rat))))
+      | _ => (st, "bad-op")
+    | _, _, _, _, _ => (st, "bad-op")
   | _ => (st, "bad-op")
 
 end HcipyVerif.Driver.C18
